@@ -419,3 +419,8 @@ def check_exclude_filter_sources(exclude_filters_view) -> None:
         if not isinstance(source_filters, (list, tuple)):
             raise ConfigTypeError(
                 f"input.exclude_filters must be a list, not {type(source_filters).__name__}")
+        for exclude_filter in source_filters:
+            # pathspec rejects numbers and booleans later on but silently skips a null entry
+            if not isinstance(exclude_filter, str):
+                raise ConfigTypeError(
+                    f"input.exclude_filters must contain strings, not {type(exclude_filter).__name__}")
